@@ -9,6 +9,11 @@ ID = 'C03'
 GEN_SECTIONS = ['GenSignature']
 COQ_TARGETS = ['Props/C03.vo']
 LEVEL = 'proof'
+MANIFEST = {
+    'text': "Theorems (Coq, every byte string body that does not contain the section tag, every digest function): the reader's split of a signed file returns exactly (hashed content, 'md5', digest); the bytes in front of the newline preceding [SIGNATURE] are exactly the hashed content; write(create_signature=True) returns the digest it wrote, write(create_signature=False) writes no section. The literal signature block is re-read from write_seq.py on every run. On the implementation every generated file (all four flag combinations) has its MD5 recomputed over the bytes before '\\n[SIGNATURE]' and compared with the Hash line, the return value and signature_value after write and after read; the extracted model re-parses the real files.",
+    'note': "Trusted: Coq kernel; translator pattern for the signature block; hashlib.md5, text-mode newlines and utf-8 encoding are runtime behaviour covered by sampling only; the theorem's hypothesis (body free of '[SIGNATURE]') is checked on every generated file.",
+    'technique': 'Rocq/Coq proof (list/byte-string reasoning over an abstract digest) + byte-level oracle on written files',
+}
 BUDGET = {'quick': 150, 'thorough': 1500}
 MISMATCH_BUDGET = 0.0
 RULE = ('random timing-valid sequences (1-12 blocks, all event kinds, random system) written with every combination of '
